@@ -240,14 +240,25 @@ package environment
 // ---------------------------------------------------------------------------------------------------------
 // C04: a detector is part of at most one active environment: the new environment is registered only after every
 // detector it needs was found absent from the set of detectors active in the other environments.
+// every environment that has a workflow counts, whatever its state (an environment in ERROR still owns its tasks and
+// detectors and can RECOVER): the set handed to CreateEnvironment is the union over all of them
+//@ ghost func detOf(env *Environment, d system.ID) bool
 //@ func (envs *Manager) GetActiveDetectors() (response system.IDMap)
-//@   noverify
+//@   property C04
 //@   modifies nothing
 //@   ensures response == nil || fresh(response)
+//@   ensures envs != nil ==> forall id uid.ID, d system.ID :: old((id in envs.m) && envs.m[id] != nil && envs.m[id].workflow != nil && detOf(envs.m[id], d)) ==> (d in response)
+//@   loop 1 invariant fresh(response)
+//@   loop 1 invariant forall id uid.ID, d system.ID :: #visited[id] && envs.m[id] != nil && envs.m[id].workflow != nil && detOf(envs.m[id], d) ==> (d in response)
+//@   loop 2 invariant fresh(response) && (envDetectors == nil || fresh(envDetectors)) && response != envDetectors
+//@   loop 2 invariant forall id uid.ID, d system.ID :: #visited1[id] && envs.m[id] != nil && envs.m[id] != env && envs.m[id].workflow != nil && detOf(envs.m[id], d) ==> (d in response)
+//@   loop 2 invariant forall d system.ID :: #visited[d] ==> (d in response)
+//@   loop 2 invariant forall d system.ID :: (d in envDetectors) == detOf(env, d)
 //@ func (env *Environment) GetActiveDetectors() (response system.IDMap)
 //@   noverify
 //@   modifies nothing
 //@   ensures response == nil || fresh(response)
+//@   ensures forall d system.ID :: (d in response) == detOf(env, d)
 
 //@ func (envs *Manager) CreateEnvironment(workflowPath string, userVars map[string]string, public bool, newId uid.ID, autoTransition bool) (resultEnvId uid.ID, resultErr error)
 //@   property C04 C06
